@@ -180,11 +180,17 @@ class Evaluator:
             return ('bool', (vals[0][2] == 1) == (last == 'is_some'))
         if last == 'unwrap_or' and len(vals) == 2 and vals[0][0] == 'adt':
             return vals[0][3][0] if vals[0][2] == 1 else vals[1]
-        if last in ('clone', 'deref', 'borrow', 'as_ref', 'into', 'from') and len(vals) == 1:
+        if last in ('clone', 'deref', 'borrow', 'as_ref', 'as_deref', 'into', 'from', 'as_mut') and len(vals) == 1:
             return vals[0]
         if last == 'is_nan' and vals and vals[0][0] == 'sym':
             return ('bool', self.order(vals[0][1], vals[0][1]) is None)
-        raise Unsupported('call of %s' % target)
+        if last == 'branch' and len(vals) == 1 and vals[0][0] == 'adt' and vals[0][1] == 'Option':
+            # <Option<T> as Try>::branch: Some(v) -> Continue(v), None -> Break(None)
+            return ('adt', 'ControlFlow', 0, [vals[0][3][0]]) if vals[0][2] == 1 else ('adt', 'ControlFlow', 1, [OPTION_NONE])
+        if last == 'from_residual' and len(vals) == 1:
+            return OPTION_NONE if (vals[0][0] == 'adt' and vals[0][1] == 'Option') else vals[0]
+        # anything else: an opaque result; fine as long as no branch depends on it
+        return ('opaque', target)
 
     def rvalue(self, rv):
         k = rv[0]
